@@ -268,7 +268,7 @@ func (e *Exec) callFunction(st *State, fr *Frame, fn *ssa.Function, args []Value
 	return e.tryMerge(pre, outs, fn)
 }
 
-var inlineLib = map[string]bool{}
+var inlineLib = map[string]bool{"math.IsNaN": true, "math.IsInf": true}
 
 // tryMerge joins the outcomes of a side-effect-free call into one outcome with ite-merged results.
 func (e *Exec) tryMerge(pre *State, outs []Outcome, fn *ssa.Function) (res []Outcome) {
@@ -415,6 +415,11 @@ func (e *Exec) implementations(it *types.Interface) []types.Type {
 }
 
 func (e *Exec) callOpaque(st *State, fr *Frame, cc *ssa.CallCommon, f *FuncV, args []Value, pos token.Pos) []Outcome {
+	if f.Opq != nil && f.Opq.Op == "intconst" {
+		if fn, ok := funcByID[int64(f.Opq.Val)]; ok {
+			return e.callFunction(st, fr, fn.(*ssa.Function), args, nil, pos)
+		}
+	}
 	panic(unsupported("call through an opaque function value"))
 }
 
@@ -703,6 +708,32 @@ func init() {
 		_ = bt
 		st.StoreLoc(l, e.bufAppend(st, cur, one1, BVConst(0, 64), BVConst(1, 64)))
 		return one(st, nilIface())
+	}
+	// time.Time: abstract instant in nanoseconds
+	tm := func(v Value) *Term { return v.(*GhostV).C[0] }
+	mkTime := func(t *Term) Value { return &GhostV{Name: "time.Time", C: []*Term{t}} }
+	models["(time.Time).Add"] = func(e *Exec, st *State, fr *Frame, fn *ssa.Function, args []Value, pos token.Pos) []Outcome {
+		e.note("time.Time is an abstract signed 64-bit nanosecond instant; Add/Sub are assumed not to overflow")
+		return one(st, mkTime(BVAdd(tm(args[0]), args[1].(*Term))))
+	}
+	models["(time.Time).Sub"] = func(e *Exec, st *State, fr *Frame, fn *ssa.Function, args []Value, pos token.Pos) []Outcome {
+		e.note("time.Time is an abstract signed 64-bit nanosecond instant; Add/Sub are assumed not to overflow")
+		return one(st, BVSub(tm(args[0]), tm(args[1])))
+	}
+	models["(time.Time).After"] = func(e *Exec, st *State, fr *Frame, fn *ssa.Function, args []Value, pos token.Pos) []Outcome {
+		return one(st, BVSlt(tm(args[1]), tm(args[0])))
+	}
+	models["(time.Time).Before"] = func(e *Exec, st *State, fr *Frame, fn *ssa.Function, args []Value, pos token.Pos) []Outcome {
+		return one(st, BVSlt(tm(args[0]), tm(args[1])))
+	}
+	models["(time.Time).Equal"] = func(e *Exec, st *State, fr *Frame, fn *ssa.Function, args []Value, pos token.Pos) []Outcome {
+		return one(st, Eq(tm(args[0]), tm(args[1])))
+	}
+	models["(time.Time).IsZero"] = func(e *Exec, st *State, fr *Frame, fn *ssa.Function, args []Value, pos token.Pos) []Outcome {
+		return one(st, Eq(tm(args[0]), BVConst(0, 64)))
+	}
+	models["time.Now"] = func(e *Exec, st *State, fr *Frame, fn *ssa.Function, args []Value, pos token.Pos) []Outcome {
+		return one(st, mkTime(Fresh("now", BV(64))))
 	}
 	// sync.Mutex: ghost field $held
 	heldLoc := func(e *Exec, p *PtrV) Loc {
